@@ -874,3 +874,618 @@ Print Assumptions C10_tree_alias_hamlet.
 Print Assumptions C10_tree_dstar_hamlet.
 Print Assumptions C10_tree_filter_hamlet.
 Print Assumptions C10_tree_literal_hamlet.
+
+(** ** The algebra for the THIRD finder, FindInAll, over a tree (Search/AlgebraAllDefs.v, AlgebraAllProofs.v)
+
+    [find_all Ld Rt F s] ALWAYS unfolds s, groups the typed searches by the finder the routing table [Rt] gives for their
+    type and runs [do_find] of each finder on its group.  When every typed search of the unfolding is routed to the path finder
+    [FPaths id cfg] ([routed_tob] / [all_routed]):
+    - FindInAll.find(s) is the first-occurrence de-duplication of FindInPaths.find(s): same exception or same set; the same LIST
+      whenever the path finder's list is duplicate-free (">" searches: [C10_find_all_routed_last]; good searches over a data
+      set: [C10_find_all_routed_dataset]).  FindInPaths.find takes a shortcut for a typed non-search Sid (it globs the Sid
+      itself), FindInAll never does: the comparison asks that both are given the same list of typed searches
+      ([find_searches Ld s = Ok qs] and [unfold_search Ld s false false = Ok qs]; automatic when [shortcut Ld s = false] and
+      the Sid factory accepts s), or, generally, that [do_find] answers the same on the two lists ([C10_find_all_routed_gen]);
+    - over a data set, with the guard of the tree finder asked of the UNFOLDING ([all_guard] = routing /\ [searches_ok] /\
+      [pat_inj] /\ [types_covered]; decidable: [all_guardb]) FindInAll.find(s) returns, without duplicates, exactly the strings
+      of the members of E that s matches; [shortcut_okb] is not needed (no shortcut), nor [nosort];
+    - hence the FIVE rules hold for FindInAll as set equalities, without any shortcut hypothesis. *)
+From Spil Require Import Data.SidLevelDefs Search.AlgebraAllDefs Search.AlgebraAllProofs.
+
+(* (1) FindInAll against FindInPaths when both are given the typed searches qs, all routed to the path finder:
+   they raise the same exception, or both succeed and the FindInAll list is the de-duplicated FindInPaths list *)
+Theorem C10_find_all_routed :
+  forall (Ld : Loaded) (Rt : Routing) (F : fs) (id cfg s : string) (qs : list sid),
+  unfold_search Ld s false false = Ok qs ->
+  find_searches Ld s = Ok qs ->
+  routed_tob Rt id cfg qs = true ->
+  match ffind Ld F (FPaths id cfg) s, find_all Ld Rt F s with
+  | Ok l, Ok l' => l' = dedup_first l /\ (forall e : string, In e l' <-> In e l) /\ (NoDup l -> l' = l)
+  | Raise e, Raise e' => e = e'
+  | _, _ => False
+  end.
+Proof. exact find_all_routed. Qed.
+Print Assumptions C10_find_all_routed.
+
+(* ... when FindInPaths.find takes the shortcut (it is given qs', FindInAll unfolds to qs): enough that [do_find] of the path
+   finder answers the same on both lists *)
+Theorem C10_find_all_routed_gen :
+  forall (Ld : Loaded) (Rt : Routing) (F : fs) (id cfg s : string) (qs qs' : list sid),
+  unfold_search Ld s false false = Ok qs ->
+  find_searches Ld s = Ok qs' ->
+  routed_to Rt (FPaths id cfg) qs ->
+  do_find_g Ld (paths_star Ld F cfg) qs = do_find_g Ld (paths_star Ld F cfg) qs' ->
+  find_all Ld Rt F s = (do r <- ffind Ld F (FPaths id cfg) s; Ok (dedup_first r)).
+Proof. exact find_all_routed_gen. Qed.
+Print Assumptions C10_find_all_routed_gen.
+
+(* ... as an equation, for every s on which both look at the same searches (also when the unfolding fails) *)
+Theorem C10_find_all_routed_eq :
+  forall (Ld : Loaded) (Rt : Routing) (F : fs) (id cfg s : string),
+  find_searches Ld s = unfold_search Ld s false false ->
+  (forall qs : list sid, unfold_search Ld s false false = Ok qs -> routed_to Rt (FPaths id cfg) qs) ->
+  find_all Ld Rt F s = (do r <- ffind Ld F (FPaths id cfg) s; Ok (dedup_first r)).
+Proof. exact find_all_routed_eq. Qed.
+Print Assumptions C10_find_all_routed_eq.
+
+(* the shortcut is not taken: no hypothesis on [find_searches] *)
+Theorem C10_find_all_routed_shortcut_free :
+  forall (Ld : Loaded) (Rt : Routing) (F : fs) (id cfg s : string) (x : sid),
+  shortcut Ld s = false ->
+  Sid Ld s = Ok x ->
+  (forall qs : list sid, unfold_search Ld s false false = Ok qs -> routed_to Rt (FPaths id cfg) qs) ->
+  match ffind Ld F (FPaths id cfg) s, find_all Ld Rt F s with
+  | Ok l, Ok l' => l' = dedup_first l /\ (forall e : string, In e l' <-> In e l) /\ (NoDup l -> l' = l)
+  | Raise e, Raise e' => e = e'
+  | _, _ => False
+  end.
+Proof. exact find_all_routed_shortcut_free. Qed.
+Print Assumptions C10_find_all_routed_shortcut_free.
+
+(* success and failure, unpacked *)
+Theorem C10_find_all_routed_ok :
+  forall (Ld : Loaded) (Rt : Routing) (F : fs) (id cfg s : string) (qs : list sid),
+  unfold_search Ld s false false = Ok qs ->
+  find_searches Ld s = Ok qs ->
+  routed_tob Rt id cfg qs = true ->
+  (forall l' : list string, ffind Ld F (FPaths id cfg) s = Ok l' -> find_all Ld Rt F s = Ok (dedup_first l')) /\
+  (forall l : list string, find_all Ld Rt F s = Ok l ->
+     exists l' : list string, ffind Ld F (FPaths id cfg) s = Ok l' /\ l = dedup_first l') /\
+  (forall e, find_all Ld Rt F s = Raise e <-> ffind Ld F (FPaths id cfg) s = Raise e).
+Proof. exact find_all_routed_ok. Qed.
+Print Assumptions C10_find_all_routed_ok.
+
+(* the same LIST: a ">" search (any tree) *)
+Theorem C10_find_all_routed_last :
+  forall (Ld : Loaded) (Rt : Routing) (F : fs) (id cfg s : string) (qs : list sid),
+  unfold_search Ld s false false = Ok qs ->
+  find_searches Ld s = Ok qs ->
+  routed_tob Rt id cfg qs = true ->
+  existsb has_gt qs = true ->
+  find_all Ld Rt F s = ffind Ld F (FPaths id cfg) s.
+Proof. exact find_all_routed_last. Qed.
+Print Assumptions C10_find_all_routed_last.
+
+(* the same LIST: good searches over a data set *)
+Theorem C10_find_all_routed_dataset :
+  forall (c : Conf) (Ld : Loaded),
+  load c = Some Ld ->
+  wf_loadedb Ld = true ->
+  paths_unambiguousb Ld = true ->
+  forall (cfg : string) (E : list sid) (F : fs),
+  dataset_ok Ld cfg E F ->
+  forall (Rt : Routing) (id s : string) (qs : list sid),
+  unfold_search Ld s false false = Ok qs ->
+  find_searches Ld s = Ok qs ->
+  routed_tob Rt id cfg qs = true ->
+  searches_ok Ld cfg qs ->
+  find_all Ld Rt F s = ffind Ld F (FPaths id cfg) s.
+Proof. exact find_all_routed_dataset. Qed.
+Print Assumptions C10_find_all_routed_dataset.
+
+(* (2) rule 0 for FindInAll, in the form of [C10_find_paths_denotes]: the guard of the tree finder, the routing hypothesis,
+   and "FindInAll looks at the list FindInPaths.find looks at".  [shortcut_okb Ld s = true] is NOT needed *)
+Theorem C10_find_all_denotes :
+  forall (c : Conf) (Ld : Loaded),
+  load c = Some Ld ->
+  wf_loadedb Ld = true ->
+  unfold_conf_okb Ld = true ->
+  paths_unambiguousb Ld = true ->
+  forall (cfg : string) (E : list sid) (F : fs),
+  dataset_ok Ld cfg E F ->
+  forall (Rt : Routing) (id s : string) (l : list string),
+  search_ok s = true ->
+  tree_guard Ld cfg E s ->
+  (forall qs : list sid, unfold_search Ld s false false = Ok qs -> routed_to Rt (FPaths id cfg) qs) ->
+  find_searches Ld s = unfold_search Ld s false false ->
+  find_all Ld Rt F s = Ok l ->
+  NoDup l /\ (forall e : string, In e l <-> In e (map s_string E) /\ matched Ld s e).
+Proof. exact find_all_denotes. Qed.
+Print Assumptions C10_find_all_denotes.
+
+(* ... with the guard asked of the unfolding (weaker: no hypothesis relating [find_searches] and the unfolding) *)
+Theorem C10_find_all_denotes_unf :
+  forall (c : Conf) (Ld : Loaded),
+  load c = Some Ld ->
+  wf_loadedb Ld = true ->
+  unfold_conf_okb Ld = true ->
+  paths_unambiguousb Ld = true ->
+  forall (cfg : string) (E : list sid) (F : fs),
+  dataset_ok Ld cfg E F ->
+  forall (Rt : Routing) (id s : string) (l : list string),
+  search_ok s = true ->
+  (forall qs : list sid, unfold_search Ld s false false = Ok qs ->
+     routed_to Rt (FPaths id cfg) qs /\ searches_ok Ld cfg qs /\ pat_inj Ld cfg qs /\ types_covered E qs) ->
+  find_all Ld Rt F s = Ok l ->
+  NoDup l /\ (forall e : string, In e l <-> In e (map s_string E) /\ matched Ld s e).
+Proof. exact find_all_denotes_unf. Qed.
+Print Assumptions C10_find_all_denotes_unf.
+
+(* the decidable guard is sound *)
+Theorem C10_all_guardb_sound :
+  forall (Ld : Loaded) (Rt : Routing) (id cfg : string) (E : list sid) (s : string),
+  all_guardb Ld Rt id cfg E s = true -> all_guard Ld Rt id cfg E s.
+Proof. exact all_guardb_sound. Qed.
+Print Assumptions C10_all_guardb_sound.
+
+(* the guard of the tree finder gives the guard of FindInAll when both look at the same searches *)
+Theorem C10_tree_guard_all_guard :
+  forall (Ld : Loaded) (Rt : Routing) (id cfg : string) (E : list sid) (s : string),
+  find_searches Ld s = unfold_search Ld s false false ->
+  (forall qs : list sid, unfold_search Ld s false false = Ok qs -> routed_to Rt (FPaths id cfg) qs) ->
+  tree_guard Ld cfg E s -> all_guard Ld Rt id cfg E s.
+Proof. exact tree_guard_all_guard. Qed.
+Print Assumptions C10_tree_guard_all_guard.
+
+(* without [types_covered] *)
+Theorem C10_find_all_denotes_typed :
+  forall (c : Conf) (Ld : Loaded),
+  load c = Some Ld ->
+  wf_loadedb Ld = true ->
+  unfold_conf_okb Ld = true ->
+  paths_unambiguousb Ld = true ->
+  forall (cfg : string) (E : list sid) (F : fs),
+  dataset_ok Ld cfg E F ->
+  forall (Rt : Routing) (id s : string) (l : list string),
+  search_ok s = true ->
+  all_guard0 Ld Rt id cfg s ->
+  find_all Ld Rt F s = Ok l ->
+  forall e : string, In e l <-> (exists x : sid, In x E /\ e = s_string x /\ matched_typed Ld s x).
+Proof. exact find_all_denotes_typed. Qed.
+Print Assumptions C10_find_all_denotes_typed.
+
+(* with a trailing url-safe query *)
+Theorem C10_find_all_query_denotes :
+  forall (c : Conf) (Ld : Loaded),
+  load c = Some Ld ->
+  wf_loadedb Ld = true ->
+  unfold_conf_okb Ld = true ->
+  paths_unambiguousb Ld = true ->
+  forall (cfg : string) (E : list sid) (F : fs),
+  dataset_ok Ld cfg E F ->
+  forall (Rt : Routing) (id body : string) (qd : list (string * string)) (l : list string),
+  search_ok body = true ->
+  query_okb qd = true ->
+  ~ In "" (bodies Ld body) ->
+  all_guard Ld Rt id cfg E (body ++ "?" ++ query_str qd) ->
+  find_all Ld Rt F (body ++ "?" ++ query_str qd) = Ok l ->
+  NoDup l /\ (forall e : string, In e l <-> In e (map s_string E) /\ matched_by (denotes_q Ld body qd) e).
+Proof. exact find_all_query_denotes. Qed.
+Print Assumptions C10_find_all_query_denotes.
+
+(* rule 1 for FindInAll *)
+Theorem C10_all_comma_rule :
+  forall (c : Conf) (Ld : Loaded),
+  load c = Some Ld ->
+  wf_loadedb Ld = true ->
+  unfold_conf_okb Ld = true ->
+  paths_unambiguousb Ld = true ->
+  forall (cfg : string) (E : list sid) (F : fs),
+  dataset_ok Ld cfg E F ->
+  forall (Rt : Routing) (id : string) (pre : list string) (a b : string) (post l la lb : list string),
+  Forall noslash pre ->
+  Forall noslash post ->
+  alt_okb a = true ->
+  alt_okb b = true ->
+  (post = [] -> a <> "" /\ b <> "") ->
+  search_ok (mk pre (a ++ "," ++ b) post) = true ->
+  all_guard Ld Rt id cfg E (mk pre (a ++ "," ++ b) post) ->
+  search_ok (mk pre a post) = true ->
+  all_guard Ld Rt id cfg E (mk pre a post) ->
+  search_ok (mk pre b post) = true ->
+  all_guard Ld Rt id cfg E (mk pre b post) ->
+  find_all Ld Rt F (mk pre (a ++ "," ++ b) post) = Ok l ->
+  find_all Ld Rt F (mk pre a post) = Ok la ->
+  find_all Ld Rt F (mk pre b post) = Ok lb ->
+  NoDup l /\ (forall e : string, In e l <-> In e la \/ In e lb).
+Proof. exact all_comma_rule2. Qed.
+Print Assumptions C10_all_comma_rule.
+
+Theorem C10_all_comma_rule_n :
+  forall (c : Conf) (Ld : Loaded),
+  load c = Some Ld ->
+  wf_loadedb Ld = true ->
+  unfold_conf_okb Ld = true ->
+  paths_unambiguousb Ld = true ->
+  forall (cfg : string) (E : list sid) (F : fs),
+  dataset_ok Ld cfg E F ->
+  forall (Rt : Routing) (id : string) (pre alts post l : list string) (ls : list (list string)),
+  alts <> [] ->
+  Forall noslash pre ->
+  Forall noslash post ->
+  Forall (fun a : string => alt_okb a = true) alts ->
+  (post = [] -> Forall (fun a : string => a <> "") alts) ->
+  search_ok (mk pre (join "," alts) post) = true ->
+  all_guard Ld Rt id cfg E (mk pre (join "," alts) post) ->
+  (forall a : string, In a alts -> search_ok (mk pre a post) = true /\ all_guard Ld Rt id cfg E (mk pre a post)) ->
+  find_all Ld Rt F (mk pre (join "," alts) post) = Ok l ->
+  Forall2 (fun (a : string) (l' : list string) => find_all Ld Rt F (mk pre a post) = Ok l') alts ls ->
+  NoDup l /\ (forall e : string, In e l <-> (exists l' : list string, In l' ls /\ In e l')).
+Proof. exact all_comma_rule. Qed.
+Print Assumptions C10_all_comma_rule_n.
+
+(* rule 2 for FindInAll *)
+Theorem C10_all_alias_rule :
+  forall (c : Conf) (Ld : Loaded),
+  load c = Some Ld ->
+  wf_loadedb Ld = true ->
+  unfold_conf_okb Ld = true ->
+  paths_unambiguousb Ld = true ->
+  forall (cfg : string) (E : list sid) (F : fs),
+  dataset_ok Ld cfg E F ->
+  forall (Rt : Routing) (id : string) (pre : list string) (a : string) (ms l : list string) (ls : list (list string)),
+  Forall noslash pre ->
+  noslash a ->
+  dget (c_extension_alias (l_conf Ld)) a = Some ms ->
+  a <> "" ->
+  mem_c "," a = false ->
+  Forall (fun m : string => dmem (c_extension_alias (l_conf Ld)) m = false) ms ->
+  search_ok (mk pre a []) = true ->
+  all_guard Ld Rt id cfg E (mk pre a []) ->
+  (forall m : string, In m ms -> search_ok (mk pre m []) = true /\ all_guard Ld Rt id cfg E (mk pre m [])) ->
+  find_all Ld Rt F (mk pre a []) = Ok l ->
+  Forall2 (fun (m : string) (l' : list string) => find_all Ld Rt F (mk pre m []) = Ok l') ms ls ->
+  NoDup l /\ (forall e : string, In e l <-> (exists l' : list string, In l' ls /\ In e l')).
+Proof. exact all_alias_rule. Qed.
+Print Assumptions C10_all_alias_rule.
+
+(* rule 3 for FindInAll *)
+Theorem C10_all_dstar_rule :
+  forall (c : Conf) (Ld : Loaded),
+  load c = Some Ld ->
+  wf_loadedb Ld = true ->
+  unfold_conf_okb Ld = true ->
+  paths_unambiguousb Ld = true ->
+  forall (cfg : string) (E : list sid) (F : fs),
+  dataset_ok Ld cfg E F ->
+  forall (Rt : Routing) (id : string) (pre post l : list string),
+  pre <> [] ->
+  Forall noslash pre ->
+  Forall noslash post ->
+  (post = [] -> dmem (c_extension_alias (l_conf Ld)) "**" = false) ->
+  (post = [] -> dmem (c_extension_alias (l_conf Ld)) "*" = false) ->
+  (post = [] -> lastpre_ok Ld pre) ->
+  search_ok (mk pre "**" post) = true ->
+  all_guard Ld Rt id cfg E (mk pre "**" post) ->
+  find_all Ld Rt F (mk pre "**" post) = Ok l ->
+  NoDup l /\
+  (forall e : string, In e l <-> In e (map s_string E) /\ (exists n : nat, matched_by (levels_on Ld pre n post) e)).
+Proof. exact all_dstar_rule. Qed.
+Print Assumptions C10_all_dstar_rule.
+
+(* ... every result of pre/**/post is a result of one of the n-level searches *)
+Theorem C10_all_dstar_rule_incl :
+  forall (c : Conf) (Ld : Loaded),
+  load c = Some Ld ->
+  wf_loadedb Ld = true ->
+  unfold_conf_okb Ld = true ->
+  paths_unambiguousb Ld = true ->
+  forall (cfg : string) (E : list sid) (F : fs),
+  dataset_ok Ld cfg E F ->
+  forall (Rt : Routing) (id : string) (pre post l : list string) (e : string),
+  pre <> [] ->
+  Forall noslash pre ->
+  Forall noslash post ->
+  (post = [] -> dmem (c_extension_alias (l_conf Ld)) "**" = false) ->
+  (post = [] -> dmem (c_extension_alias (l_conf Ld)) "*" = false) ->
+  (post = [] -> lastpre_ok Ld pre) ->
+  search_ok (mk pre "**" post) = true ->
+  all_guard Ld Rt id cfg E (mk pre "**" post) ->
+  find_all Ld Rt F (mk pre "**" post) = Ok l ->
+  In e l ->
+  exists n : nat,
+    forall ln : list string,
+    search_ok (mkn pre n post) = true ->
+    all_guard Ld Rt id cfg E (mkn pre n post) ->
+    contains "**" (mkn pre n post) = false ->
+    find_all Ld Rt F (mkn pre n post) = Ok ln -> In e ln.
+Proof. exact all_dstar_rule_incl. Qed.
+Print Assumptions C10_all_dstar_rule_incl.
+
+(* ... and a level all of whose typed searches are of a leaf type is included *)
+Theorem C10_all_dstar_rule_level :
+  forall (c : Conf) (Ld : Loaded),
+  load c = Some Ld ->
+  wf_loadedb Ld = true ->
+  unfold_conf_okb Ld = true ->
+  paths_unambiguousb Ld = true ->
+  forall (cfg : string) (E : list sid) (F : fs),
+  dataset_ok Ld cfg E F ->
+  forall (Rt : Routing) (id : string) (pre post l : list string) (n : nat) (ln : list string),
+  pre <> [] ->
+  Forall noslash pre ->
+  Forall noslash post ->
+  (post = [] -> dmem (c_extension_alias (l_conf Ld)) "**" = false) ->
+  (post = [] -> dmem (c_extension_alias (l_conf Ld)) "*" = false) ->
+  (post = [] -> lastpre_ok Ld pre) ->
+  search_ok (mk pre "**" post) = true ->
+  all_guard Ld Rt id cfg E (mk pre "**" post) ->
+  find_all Ld Rt F (mk pre "**" post) = Ok l ->
+  (forall x : sid, plain_denotes Ld (mkn pre n post) x -> levels_on Ld pre n post x) ->
+  search_ok (mkn pre n post) = true ->
+  all_guard Ld Rt id cfg E (mkn pre n post) ->
+  contains "**" (mkn pre n post) = false ->
+  find_all Ld Rt F (mkn pre n post) = Ok ln -> incl ln l.
+Proof. exact all_dstar_rule_level. Qed.
+Print Assumptions C10_all_dstar_rule_level.
+
+(* rule 4 for FindInAll *)
+Theorem C10_all_filter_rule :
+  forall (c : Conf) (Ld : Loaded),
+  load c = Some Ld ->
+  wf_loadedb Ld = true ->
+  unfold_conf_okb Ld = true ->
+  paths_unambiguousb Ld = true ->
+  forall (cfg : string) (E : list sid) (F : fs),
+  dataset_ok Ld cfg E F ->
+  forall (Rt : Routing) (id body k v : string) (l lf : list string),
+  search_ok body = true ->
+  contains "**" body = false ->
+  narrow_stableb Ld body = true ->
+  all_guard Ld Rt id cfg E body ->
+  atomb k = true ->
+  atomb v = true ->
+  literalb v = true ->
+  startswith "~" v = false ->
+  value_alts Ld k v = [v] ->
+  filt_okb Ld body k v = true ->
+  ~ In "" (bodies Ld body) ->
+  all_guard Ld Rt id cfg E (body ++ "?" ++ k ++ "=" ++ v) ->
+  find_all Ld Rt F body = Ok l ->
+  find_all Ld Rt F (body ++ "?" ++ k ++ "=" ++ v) = Ok lf ->
+  NoDup lf /\ (forall e : string, In e lf <-> In e l /\ field_in Ld body k e v).
+Proof. exact all_filter_rule. Qed.
+Print Assumptions C10_all_filter_rule.
+
+(* rule 5 for FindInAll *)
+Theorem C10_all_literal_rule :
+  forall (c : Conf) (Ld : Loaded),
+  load c = Some Ld ->
+  wf_loadedb Ld = true ->
+  unfold_conf_okb Ld = true ->
+  paths_unambiguousb Ld = true ->
+  forall (cfg : string) (E : list sid) (F : fs),
+  dataset_ok Ld cfg E F ->
+  forall (Rt : Routing) (id : string) (pre : list string) (v : string) (post l lv : list string),
+  Forall noslash pre ->
+  Forall noslash post ->
+  noslash v ->
+  literalb v = true ->
+  mem_c "," v = false ->
+  (post = [] -> v <> "" /\ dmem (c_extension_alias (l_conf Ld)) v = false) ->
+  (post = [] -> dmem (c_extension_alias (l_conf Ld)) "*" = false) ->
+  lit_ok Ld pre post v ->
+  search_ok (mk pre "*" post) = true ->
+  contains "**" (mk pre "*" post) = false ->
+  narrow_stableb Ld (mk pre "*" post) = true ->
+  all_guard Ld Rt id cfg E (mk pre "*" post) ->
+  search_ok (mk pre v post) = true ->
+  contains "**" (mk pre v post) = false ->
+  narrow_stableb Ld (mk pre v post) = true ->
+  all_guard Ld Rt id cfg E (mk pre v post) ->
+  find_all Ld Rt F (mk pre "*" post) = Ok l ->
+  find_all Ld Rt F (mk pre v post) = Ok lv ->
+  NoDup lv /\ (forall e : string, In e lv <-> In e l /\ nth_error (split_c "/" e) (Datatypes.length pre) = Some v).
+Proof. exact all_literal_rule. Qed.
+Print Assumptions C10_all_literal_rule.
+
+(* the three finders return the same set (restated in props/C11.v as C11_three_finders_agree) *)
+Theorem C10_find_all_eq_find_paths_eq_find_list :
+  forall (c : Conf) (Ld : Loaded),
+  load c = Some Ld ->
+  wf_loadedb Ld = true ->
+  unfold_conf_okb Ld = true ->
+  paths_unambiguousb Ld = true ->
+  forall (cfg : string) (E : list sid) (F : fs),
+  dataset_ok Ld cfg E F ->
+  forall (Rt : Routing) (id s : string) (l l' l'' : list string),
+  guarded Ld s ->
+  tree_guard Ld cfg E s ->
+  all_guard Ld Rt id cfg E s ->
+  find_all Ld Rt F s = Ok l ->
+  ffind Ld F (FPaths id cfg) s = Ok l' ->
+  find_list Ld (map s_string E) s = Ok l'' ->
+  forall e : string, (In e l <-> In e l') /\ (In e l' <-> In e l'').
+Proof. exact find_all_eq_find_paths_eq_find_list. Qed.
+Print Assumptions C10_find_all_eq_find_paths_eq_find_list.
+
+(** ** The FindInAll rules instantiated: the data set / tree of [C10_tree_instance], the routing table of this run *)
+
+(* the routing of the run (as [Rt15] of props/C15.v): every path-backed type goes to  FPaths "0" "local" *)
+Definition Rt10 : Routing := match parse_routing Hamlet.raw with Some r => r | None => mkRouting [] [] false end.
+Definition afind (s : string) : outcome (list string) := find_all L Rt10 F1 s.
+Definition pfind (s : string) : outcome (list string) := ffind L F1 (FPaths "0" "local") s.
+Definition aguard (s : string) : bool := search_ok s && all_guardb L Rt10 "0" "local" E1 s.
+(* FindInAll and FindInPaths.find are given the same typed searches, all routed to the path finder *)
+Definition arouted (s : string) : bool :=
+  match find_searches L s, unfold_search L s false false with
+  | Ok qs', Ok qs => Nat.eqb (List.length qs') (List.length qs)
+                     && forallb (fun p => sid_eqb_full (fst p) (snd p)) (combine qs' qs)
+                     && routed_tob Rt10 "0" "local" qs
+  | _, _ => false
+  end.
+
+(* the tree F1 is also the tree of E1 under the configuration "local" the routing table names *)
+Lemma data1_ok_local : dataset_ok L "local" E1 F1.
+Proof. apply dataset_okb_sound. vm_compute. reflexivity. Qed.
+
+(* the routing guard and the whole guard hold for a comma search, an alias search and a "**" search (and for their
+   alternatives / members / the filter and literal searches), with the computed results of FindInAll, which are those of
+   FindInPaths ([C10_tree_instance]) *)
+Example C10_all_instance :
+  parse_routing Hamlet.raw <> None /\
+  finder_for Rt10 "asset__asset" = Some (FPaths "0" "local") /\
+  dataset_okb L "local" E1 F1 = true /\
+  forallb arouted ["hamlet/a/char/ophelia,claudius"; "hamlet/a/char/ophelia/model/v001/w/maya"; "hamlet/a/char/**"] = true /\
+  forallb (all_routedb L Rt10 "0" "local")
+          ["hamlet/a/char/ophelia,claudius"; "hamlet/a/char/ophelia/model/v001/w/maya"; "hamlet/a/char/**"] = true /\
+  forallb aguard ["hamlet/a/char/ophelia,claudius"; "hamlet/a/char/ophelia"; "hamlet/a/char/claudius";
+                  "hamlet/a/char/ophelia/model/v001/w/maya"; "hamlet/a/char/ophelia/model/v001/w/ma";
+                  "hamlet/a/char/ophelia/model/v001/w/mb"; "hamlet/a/char/**"; "hamlet/a/*/*"; "hamlet/a/char/*"] = true /\
+  all_guardb L Rt10 "0" "local" E1 "hamlet/a/*/*?assettype=char" = true /\
+  (* typed non-search Sids (FindInPaths.find takes the shortcut): the Sid unfolds to itself *)
+  map (shortcut L) ["hamlet/a/char/ophelia"; "hamlet/a/char/ophelia/model/v001/w/ma"; "hamlet/a/char/**"] = [true; true; false] /\
+  forallb arouted ["hamlet/a/char/ophelia"; "hamlet/a/char/claudius"; "hamlet/a/char/ophelia/model/v001/w/ma"] = true /\
+  (* comma *)
+  afind "hamlet/a/char/ophelia,claudius" = Ok ["hamlet/a/char/claudius"; "hamlet/a/char/ophelia"] /\
+  afind "hamlet/a/char/ophelia" = Ok ["hamlet/a/char/ophelia"] /\
+  afind "hamlet/a/char/claudius" = Ok ["hamlet/a/char/claudius"] /\
+  (* alias *)
+  afind "hamlet/a/char/ophelia/model/v001/w/maya" =
+    Ok ["hamlet/a/char/ophelia/model/v001/w/ma"; "hamlet/a/char/ophelia/model/v001/w/mb"] /\
+  afind "hamlet/a/char/ophelia/model/v001/w/ma" = Ok ["hamlet/a/char/ophelia/model/v001/w/ma"] /\
+  afind "hamlet/a/char/ophelia/model/v001/w/mb" = Ok ["hamlet/a/char/ophelia/model/v001/w/mb"] /\
+  (* "**" *)
+  afind "hamlet/a/char/**" =
+    Ok ["hamlet/a/char/ophelia/model/v001/w/ma"; "hamlet/a/char/ophelia/model/v001/w/mb";
+        "hamlet/a/char/ophelia/model/v001/w/mp4"] /\
+  (* filter, literal *)
+  afind "hamlet/a/*/*" = Ok ["hamlet/a/char/claudius"; "hamlet/a/char/ophelia"; "hamlet/a/prop/skull"] /\
+  afind "hamlet/a/*/*?assettype=char" = Ok ["hamlet/a/char/claudius"; "hamlet/a/char/ophelia"] /\
+  afind "hamlet/a/char/*" = Ok ["hamlet/a/char/claudius"; "hamlet/a/char/ophelia"] /\
+  (* the same searches by the path finder the routing names, and by the list finder *)
+  pfind "hamlet/a/char/ophelia,claudius" = Ok ["hamlet/a/char/claudius"; "hamlet/a/char/ophelia"] /\
+  pfind "hamlet/a/char/ophelia/model/v001/w/maya" =
+    Ok ["hamlet/a/char/ophelia/model/v001/w/ma"; "hamlet/a/char/ophelia/model/v001/w/mb"] /\
+  pfind "hamlet/a/char/**" =
+    Ok ["hamlet/a/char/ophelia/model/v001/w/ma"; "hamlet/a/char/ophelia/model/v001/w/mb";
+        "hamlet/a/char/ophelia/model/v001/w/mp4"] /\
+  find_list L (map s_string E1) "hamlet/a/char/**" =
+    Ok ["hamlet/a/char/ophelia/model/v001/w/ma"; "hamlet/a/char/ophelia/model/v001/w/mb";
+        "hamlet/a/char/ophelia/model/v001/w/mp4"] /\
+  (* a level served by configured constants is NOT routed to the path finder: the routing guard fails there *)
+  all_routedb L Rt10 "0" "local" "hamlet/a/char/ophelia/model/v001/*" = false.
+Proof. vm_compute. split; [discriminate|]. repeat split; reflexivity. Qed.
+Print Assumptions C10_all_instance.
+
+Ltac aguard_calc := match goal with |- all_guard _ _ _ _ _ _ => apply all_guardb_sound; calc end.
+
+(** Rule 0 for FindInAll *)
+Example C10_all_denotes_hamlet :
+  NoDup ["hamlet/a/char/claudius"; "hamlet/a/char/ophelia"] /\
+  forall e, In e ["hamlet/a/char/claudius"; "hamlet/a/char/ophelia"] <->
+            In e (map s_string E1) /\ matched L "hamlet/a/char/*" e.
+Proof.
+  apply (find_all_denotes_unf Hamlet.the_conf L Hamlet.the_loaded_eq Hamlet.conf_wf conf_unfold_ok conf_paths_ok
+           "local" E1 F1 data1_ok_local Rt10 "0" "hamlet/a/char/*"); try calc. aguard_calc.
+Qed.
+
+(** Rule 1 for FindInAll *)
+Example C10_all_comma_hamlet :
+  NoDup ["hamlet/a/char/claudius"; "hamlet/a/char/ophelia"] /\
+  forall e, In e ["hamlet/a/char/claudius"; "hamlet/a/char/ophelia"] <->
+            In e ["hamlet/a/char/ophelia"] \/ In e ["hamlet/a/char/claudius"].
+Proof.
+  apply (all_comma_rule2 Hamlet.the_conf L Hamlet.the_loaded_eq Hamlet.conf_wf conf_unfold_ok conf_paths_ok
+           "local" E1 F1 data1_ok_local Rt10 "0" ["hamlet"; "a"; "char"] "ophelia" "claudius" []);
+    try aguard_calc; try calc; try segs.
+  intros _. split; discriminate.
+Qed.
+
+(** Rule 2 for FindInAll *)
+Example C10_all_alias_hamlet :
+  NoDup ["hamlet/a/char/ophelia/model/v001/w/ma"; "hamlet/a/char/ophelia/model/v001/w/mb"] /\
+  forall e, In e ["hamlet/a/char/ophelia/model/v001/w/ma"; "hamlet/a/char/ophelia/model/v001/w/mb"] <->
+    exists l', In l' [["hamlet/a/char/ophelia/model/v001/w/ma"]; ["hamlet/a/char/ophelia/model/v001/w/mb"]] /\ In e l'.
+Proof.
+  apply (all_alias_rule Hamlet.the_conf L Hamlet.the_loaded_eq Hamlet.conf_wf conf_unfold_ok conf_paths_ok
+           "local" E1 F1 data1_ok_local Rt10 "0" ["hamlet"; "a"; "char"; "ophelia"; "model"; "v001"; "w"] "maya" ["ma"; "mb"]);
+    try aguard_calc; try calc; try segs; try discriminate.
+  - intros m [<-|[<-|[]]]; (split; [calc | aguard_calc]).
+  - f2.
+Qed.
+
+(** Rule 3 for FindInAll *)
+Example C10_all_dstar_hamlet :
+  NoDup ["hamlet/a/char/ophelia/model/v001/w/ma"; "hamlet/a/char/ophelia/model/v001/w/mb";
+         "hamlet/a/char/ophelia/model/v001/w/mp4"] /\
+  forall e, In e ["hamlet/a/char/ophelia/model/v001/w/ma"; "hamlet/a/char/ophelia/model/v001/w/mb";
+                  "hamlet/a/char/ophelia/model/v001/w/mp4"] <->
+    In e (map s_string E1) /\ exists n, matched_by (levels_on L ["hamlet"; "a"; "char"] n []) e.
+Proof.
+  apply (all_dstar_rule Hamlet.the_conf L Hamlet.the_loaded_eq Hamlet.conf_wf conf_unfold_ok conf_paths_ok
+           "local" E1 F1 data1_ok_local Rt10 "0" ["hamlet"; "a"; "char"] []); try aguard_calc; try calc; try segs; try discriminate.
+  - intros _. calc.
+  - intros _. calc.
+  - intros _ x. vm_compute. tauto.
+Qed.
+
+(** Rule 4 for FindInAll *)
+Example C10_all_filter_hamlet :
+  NoDup ["hamlet/a/char/claudius"; "hamlet/a/char/ophelia"] /\
+  forall e, In e ["hamlet/a/char/claudius"; "hamlet/a/char/ophelia"] <->
+    In e ["hamlet/a/char/claudius"; "hamlet/a/char/ophelia"; "hamlet/a/prop/skull"] /\
+    field_in L "hamlet/a/*/*" "assettype" e "char".
+Proof.
+  apply (all_filter_rule Hamlet.the_conf L Hamlet.the_loaded_eq Hamlet.conf_wf conf_unfold_ok conf_paths_ok
+           "local" E1 F1 data1_ok_local Rt10 "0" "hamlet/a/*/*" "assettype" "char"); try aguard_calc; try calc.
+  vm_compute. intros [H|[]]. discriminate H.
+Qed.
+
+(** Rule 5 for FindInAll *)
+Example C10_all_literal_hamlet :
+  NoDup ["hamlet/a/char/ophelia"] /\
+  forall e, In e ["hamlet/a/char/ophelia"] <->
+    In e ["hamlet/a/char/claudius"; "hamlet/a/char/ophelia"] /\ nth_error (split_c "/" e) 3 = Some "ophelia".
+Proof.
+  apply (all_literal_rule Hamlet.the_conf L Hamlet.the_loaded_eq Hamlet.conf_wf conf_unfold_ok conf_paths_ok
+           "local" E1 F1 data1_ok_local Rt10 "0" ["hamlet"; "a"; "char"] "ophelia" []); try aguard_calc; try calc; try segs.
+  - intros _. split; [discriminate | calc].
+  - intros _. calc.
+  - apply lit_okb_ok. calc.
+Qed.
+
+Print Assumptions C10_all_denotes_hamlet.
+Print Assumptions C10_all_comma_hamlet.
+Print Assumptions C10_all_alias_hamlet.
+Print Assumptions C10_all_dstar_hamlet.
+Print Assumptions C10_all_filter_hamlet.
+Print Assumptions C10_all_literal_hamlet.
+
+(** a typed non-search Sid whose unfolding is NOT the Sid itself: FindInPaths.find takes the shortcut and globs ONE typed search
+    (type shot__file), FindInAll unfolds to TWO (the other one, of type shot__cache_node, has no path template, so [all_guard]
+    fails although [tree_guard] holds); both are routed to the path finder.  Here [do_find] answers the same on the two lists
+    (the hypothesis of [C10_find_all_routed_gen]), so the two finders still agree.  This is why (1) and the form
+    [C10_find_all_denotes] of (2) ask that both look at the same list, and why the rules are stated with the guard on the
+    unfolding. *)
+Definition s_sc : string := "hamlet/s/sq010/sh0010/anim/v001/w/ma".
+Definition E2 : list sid := [mks s_sc].
+Definition F2 : fs := map (fun e => (pth e, Dir)) E2.
+Example C10_all_shortcut_instance :
+  shortcut L s_sc = true /\
+  match find_searches L s_sc with Ok qs' => map s_type qs' | Raise _ => [] end = ["shot__file"] /\
+  match unfold_search L s_sc false false with Ok qs => map s_type qs | Raise _ => [] end = ["shot__cache_node"; "shot__file"] /\
+  match unfold_search L s_sc false false with Ok qs => map (fun q => sid_path L q "local") qs | Raise _ => [] end =
+    [Ok None; Ok (Some (pth (mks s_sc)))] /\
+  all_routedb L Rt10 "0" "local" s_sc = true /\
+  dataset_okb L "local" E2 F2 = true /\
+  tree_guardb L "local" E2 s_sc = true /\
+  all_guardb L Rt10 "0" "local" E2 s_sc = false /\
+  match find_searches L s_sc, unfold_search L s_sc false false with
+  | Ok qs', Ok qs => do_find_g L (paths_star L F2 "local") qs = do_find_g L (paths_star L F2 "local") qs'
+  | _, _ => False
+  end /\
+  find_all L Rt10 F2 s_sc = Ok [s_sc] /\
+  ffind L F2 (FPaths "0" "local") s_sc = Ok [s_sc].
+Proof. vm_compute. repeat split; reflexivity. Qed.
+Print Assumptions C10_all_shortcut_instance.
